@@ -301,7 +301,18 @@ impl<Foo> DataWriterAsync<Foo> {
     pub async fn get_offered_incompatible_qos_status(
         &self,
     ) -> DdsResult<OfferedIncompatibleQosStatus> {
-        todo!()
+        let (reply_sender, reply_receiver) = oneshot();
+        self.dcps_sender()
+            .send(DcpsMail::Writer(
+                WriterServiceMail::GetOfferedIncompatibleQosStatus {
+                    participant_handle: self.publisher.get_participant().get_instance_handle(),
+                    publisher_handle: self.publisher.get_instance_handle(),
+                    data_writer_handle: self.handle,
+                    reply_sender,
+                },
+            ))
+            .await;
+        reply_receiver.await?
     }
 
     /// Async version of [`get_publication_matched_status`](crate::publication::data_writer::DataWriter::get_publication_matched_status).
